@@ -40,6 +40,11 @@ func c09Text(k *h.Case, prog *spec.Program) *spec.TextVal {
 			sb.WriteString(c09Pieces[r.IntN(len(c09Pieces))])
 		}
 		s := sb.String()
+		if r.IntN(60) == 0 {
+			// a very long line (around typical buffer sizes) with multi-byte characters across the boundary
+			n := []int{250, 505, 995, 1019, 2040, 4090}[r.IntN(6)] + r.IntN(8)
+			s = strings.Repeat("x", n) + "ÉポÉポ😀ÉポÉ" + s
+		}
 		if r.IntN(10) == 0 && len(s) > 2 {
 			// a line break + indentation inside the literal (never right before the closing quote)
 			cut := 1 + r.IntN(len(s)-1)
@@ -174,6 +179,7 @@ func runC09(ctx *h.Ctx) int {
 			k.Count("rejected", 1)
 			k.Count("rejected: "+rejectFamily(res.ErrString()), 1)
 			debugReject(pr.Src, res.ErrString())
+			rejectedValid(k, prog, res, true)
 			return
 		}
 		k.Count("accepted", 1)
